@@ -18,9 +18,17 @@ From PV Require Import Base.U64 C09.C09_Common C09.C09_Buf.
 Import ListNotations.
 Local Open Scope Z_scope.
 
+(* the harness-controlled clock (finding F40 needs an expiring Timeout): script op `A` of a participant = one
+   instrumentation point "tick" after which photon::now is 200 us later; carried in the model by an OYield op
+   (the buffered model gives OYield no access to the channel), the E3 step of which also advances b_now by 200. *)
+Definition is_tick (s : bst) (t : tid) : bool :=
+  match b_pc s t, b_prog s t with BIdle, OYield :: _ => true | _, _ => false end.
+Definition tick_us : Z := 200.
+
 Definition bpoints (mcap : Z) (s : bst) (t : tid) : nat :=
   match b_pc s t with
-  | BIdle | BS_exp _ _ | BR_exp _ => 0%nat
+  | BIdle => if is_tick s t then 1%nat else 0%nat
+  | BS_exp _ _ | BR_exp _ => 0%nat
   | BS_push _ _ => if (Z.of_nat (length (b_q s)) <? ring_cap mcap)%Z then 3%nat else 4%nat
   | BR_pop _ => 4%nat
   | BC_ss ns _ => if (0 <? ns)%Z then 1%nat else 0%nat
@@ -47,7 +55,8 @@ Fixpoint bsilent (fuel : nat) (fx : bool) (mcap : Z) (s : bst) (t : tid) : bst :
 Definition bmacro (fx : bool) (mcap : Z) (s : bst) (t : tid) : option (bst * nat) :=
   if benabled fx mcap s t
   then match bstep fx mcap s t with
-       | Some s' => Some (bsilent 8 fx mcap s' t, bpoints mcap s t)
+       | Some s' => let s'' := if is_tick s t then set_b_now s' (b_now s' + tick_us) else s' in
+                    Some (bsilent 8 fx mcap s'' t, bpoints mcap s t)
        | None => None
        end
   else None.
